@@ -119,6 +119,8 @@ theorem Bal_G_ops (h0 : Nat → Nat) (s : St) (op : Op) (s' : St) (r : String) (
       split at h
       · simp only [Option.some.injEq, Prod.mk.injEq] at h; obtain ⟨rfl, _⟩ := h; exact hI
       split at h
+      · simp only [Option.some.injEq, Prod.mk.injEq] at h; obtain ⟨rfl, _⟩ := h; exact hI
+      split at h
       · repeat' split at h
         all_goals (simp only [Option.some.injEq, Prod.mk.injEq] at h; obtain ⟨rfl, _⟩ := h)
         all_goals (first | exact hI | exact Bal.ensure hI ‹_› | skip)
@@ -155,6 +157,8 @@ theorem Bal_G_ops (h0 : Nat → Nat) (s : St) (op : Op) (s' : St) (r : String) (
     split at h
     · simp only [Option.some.injEq, Prod.mk.injEq] at h; obtain ⟨rfl, _⟩ := h; exact hI
     rename_i hd hi
+    split at h
+    · simp only [Option.some.injEq, Prod.mk.injEq] at h; obtain ⟨rfl, _⟩ := h; exact hI
     split at h
     · simp only [Option.some.injEq, Prod.mk.injEq] at h; obtain ⟨rfl, _⟩ := h; exact hI
     simp only [Option.some.injEq, Prod.mk.injEq] at h; obtain ⟨rfl, _⟩ := h
@@ -220,6 +224,24 @@ theorem Bal_forceDelG (h0 : Nat → Nat) (s : St) (g : Nat) (hI : Bal h0 s) : Ba
         rw [hdi] at h3; exact h3
       · have h3 := key s hI rfl
         rw [hdi] at h3; exact h3
+
+theorem Bal.coll {h : Nat → Nat} (s : St) (hb : Bal h s) : Bal h (collect s) :=
+  (bal_prims h none).collect (fun _ _ x => x) (fun _ _ x => x)
+    (dropG_of (fun _ _ x => x) (Bal_forceDelG h)) hb
+
+theorem Bal.epi {h : Nat → Nat} {s : St} {i : Nat} (m : Nat) (hb : Bal (bump h i) s) :
+    Bal h (emitEpi s i m) := by
+  unfold Inv.emitEpi
+  split
+  · rename_i hn
+    exact Bal.fail _ (Bal.unbump_none hb hn)
+  · apply Bal.coll
+    apply BalW.gcImpl
+    apply Bal.drop
+    apply (bal_prims (bump h i) none).unrefExec
+    split
+    · exact (bal_prims (bump h i) none).eraseCell _ _ hb
+    · exact Bal.fail _ hb
 
 /-- `Bal` is a stable family relative to `WF`: the emission prologue moves from index `h` to `bump h i`, the
     epilogue returns to `h` -/
